@@ -263,10 +263,10 @@ def smt_skip(slc):
         ok = (('succeeded' in got) != ('failed' in got))
         ok = ok and (required - {'succeeded', 'failed'}) <= got
         ok = ok and {'submitted', 'started'} <= got
-        if 'failed' in required and 'succeeded' not in required:
-            ok = ok and 'failed' in got
-        if 'succeeded' in required:
-            ok = ok and 'succeeded' in got
+        if not {'succeeded', 'failed'} <= required:
+            # (an expression requiring both can never complete - the graph
+            # parser rejects such declarations - only "exactly one" applies)
+            ok = ok and (required & {'succeeded', 'failed'}) <= got
         if not ok:
             return ses.result(
                 'sat', message=f'skip-mode outputs {sorted(got)} for '
@@ -284,6 +284,8 @@ def replay_skip(kind, c) -> bool:
         tdef = mk11(DECLS[c])
     to, got = _skip_outputs(tdef)
     required = set(to.iter_required_messages())
+    if {'succeeded', 'failed'} <= required:
+        required -= {'succeeded', 'failed'}
     return (('succeeded' in got) != ('failed' in got)
             and required <= got)
 
